@@ -125,7 +125,12 @@ func (m *CPU) Run(app risc.Application) (int, error) {
 
 		// Write back
 		for _, wu := range m.writeUnits {
-			_ = wu.Cycle(wuReq{-1})
+			if flush {
+				// In case of a flush, we shouldn't write pending-write instructions.
+				_ = wu.Cycle(wuReq{sequenceID})
+			} else {
+				_ = wu.Cycle(wuReq{-1})
+			}
 		}
 		log.Info(m.ctx, "\tRegisters: %v", m.ctx.Registers)
 
